@@ -13,9 +13,12 @@ theorem decode_nil : decode [] = .incomplete := by
   simp [this]
 
 /-- a chunk that is exactly one complete request is answered and leaves nothing buffered -/
-theorem consume_one (bytes : Bytes) (r : Req) (n fuel : Nat) (h : decode bytes = .req r []) :
+theorem decodeT_nil : decodeT [] = .incomplete := by
+  simp [decodeT, decode_nil]
+
+theorem consume_one (bytes : Bytes) (r : Req) (n fuel : Nat) (h : decodeT bytes = .req r []) :
     consume (fuel + 2) bytes n = ([], n + 1) := by
-  simp [consume, h, decode_nil]
+  simp [consume, h, decodeT_nil]
 
 /-- **An active connection is never cut**: if every request arrives complete and less than T after
     the previous one (the first less than T after connect), then — however many requests, however
@@ -23,7 +26,7 @@ theorem consume_one (bytes : Bytes) (r : Req) (n fuel : Nat) (h : decode bytes =
     the last one. -/
 theorem active_never_cut (T : Nat) (hT : T ≠ 0) :
     ∀ (cs : List Chunk) (t n : Nat),
-      (∀ c ∈ cs, c.delay < T ∧ ∃ r, decode c.bytes = .req r []) →
+      (∀ c ∈ cs, c.delay < T ∧ ∃ r, decodeT c.bytes = .req r []) →
       simulate T true cs t t [] n = ⟨n + cs.length, some (t + (cs.map (·.delay)).sum + T)⟩ := by
   intro cs
   induction cs with
@@ -31,7 +34,7 @@ theorem active_never_cut (T : Nat) (hT : T ≠ 0) :
   | cons c rest ih =>
     intro t n h
     obtain ⟨hd, r, hr⟩ := h c List.mem_cons_self
-    have hrest : ∀ c' ∈ rest, c'.delay < T ∧ ∃ r, decode c'.bytes = .req r [] :=
+    have hrest : ∀ c' ∈ rest, c'.delay < T ∧ ∃ r, decodeT c'.bytes = .req r [] :=
       fun c' hc' => h c' (List.mem_cons_of_mem _ hc')
     have hT' : (T != 0) = true := by simpa using hT
     have hlt : ¬ (t + c.delay ≥ t + T) := by omega
@@ -51,10 +54,12 @@ theorem active_never_cut (T : Nat) (hT : T ≠ 0) :
     have e2 : t + c.delay + (rest.map (·.delay)).sum + T = t + (c.delay + (rest.map (·.delay)).sum) + T := by omega
     rw [e1, e2]
 where
-  Props_short (s : Bytes) (h : s.length < 16) : decode s = .incomplete := by
-    unfold decode
-    have : cmdSize = 16 := by decide
-    simp [this, h]
+  Props_short (s : Bytes) (h : s.length < 16) : decodeT s = .incomplete := by
+    have hd : decode s = .incomplete := by
+      unfold decode
+      have : cmdSize = 16 := by decide
+      simp [this, h]
+    simp [decodeT, hd]
 
 /-- **An idle connection is cut at its deadline**: silent after connect … -/
 theorem idle_after_connect (T : Nat) (hT : T ≠ 0) : run T [] = ⟨0, some T⟩ := by
